@@ -432,7 +432,9 @@ package parser
 //@   loopinv [C06:slot-inv] resultImpData != nil && fresh(resultImpData) && ImpOK(resultImpData)
 //@   ensures [C06:slot] result3 == nil ==> (ImpOK(result2) && (result2 == nil || fresh(result2)))
 //@   ensures [C20:stack-balanced] result3 == nil ==> (SameStack(p.breakStack, old(p.breakStack)) && SameStack(p.continueStack, old(p.continueStack)))
-//@   loopinv [C20:stack-balanced-inv] SameStack(p.breakStack, old(p.breakStack)) && SameStack(p.continueStack, old(p.continueStack))
+// inside the statement the switch is the innermost break target: breakStack == old(breakStack) ++ [statement]
+//@   loopinv [C20:stack-balanced-inv] SameStack(p.continueStack, old(p.continueStack)) && statement != nil && len(p.breakStack) == len(old(p.breakStack)) + 1
+//@     && p.breakStack[len(old(p.breakStack))] == statement && (forall k int :: {p.breakStack[k]} (0 <= k && k < len(old(p.breakStack))) ==> p.breakStack[k] == old(p.breakStack)[k])
 //@ end
 
 //@ func (p *Parser) parseConditionExpression
@@ -489,8 +491,8 @@ package parser
 
 //@ func (p *Parser) parsePoryswitchStatementCases
 //@   include ParseFrame
-//@   loopinv [C06:slot-inv] impDatas != nil && (forall key string :: {indom(impDatas, key)} indom(impDatas, key) ==> ImpOK(impDatas[key]))
-//@   ensures [C06:slot] result2 == nil ==> (forall key string :: {indom(result1, key)} indom(result1, key) ==> ImpOK(result1[key]))
+//@   loopinv [C06:slot-inv] impDatas != nil && fresh(impDatas) && (forall key string :: {indom(impDatas, key)} indom(impDatas, key) ==> (ImpOK(impDatas[key]) && (impDatas[key] == nil || fresh(impDatas[key]))))
+//@   ensures [C06:slot] result2 == nil ==> (forall key string :: {indom(result1, key)} indom(result1, key) ==> (ImpOK(result1[key]) && (result1[key] == nil || fresh(result1[key]))))
 //@   ensures [C20:stack-balanced] result2 == nil ==> (SameStack(p.breakStack, old(p.breakStack)) && SameStack(p.continueStack, old(p.continueStack)))
 //@   loopinv [C20:stack-balanced-inv] SameStack(p.breakStack, old(p.breakStack)) && SameStack(p.continueStack, old(p.continueStack))
 //@ end
